@@ -289,7 +289,7 @@ class C08(World):
             if r and w["again"] and args.random() < 0.2:
                 steps.append(dict(op="again", which=args.randrange(64)))
                 continue
-            form = args.choice(["scalar", "list", "list", "list", "ndarray", "tuple", "int_array"])
+            form = args.choice(["scalar", "list", "list", "list", "ndarray", "tuple", "int_array", "own_column"])
             if bulk:
                 m_ = args.choice([50, 70, 110])
                 refs = [["mid", args.randrange(256), round(args.random(), 3)] for _ in range(m_ - 8)]
@@ -436,6 +436,11 @@ class C08(World):
                 arg = np.asarray(req, dtype=float)
             elif form == "tuple":
                 arg = tuple(req)
+            elif form == "own_column":
+                # the caller passes (a view of) the table's own temperature column, e.g. to make sure all of them are present
+                arg = pt.col["T"] if len(req) % 2 == 0 else pt.col["T"][::-1]
+                req = [float(x) for x in np.asarray(arg, dtype=float).tolist()]
+                probe("request_is_view_of_own_column")
             elif form == "int_array":
                 req = [float(round(x)) for x in req]  # integral temperatures handed over as an integer-typed array
                 arg = np.asarray([int(x) for x in req], dtype=np.int64)
